@@ -3,7 +3,7 @@
     ST_TextSpacingPoint (EMU in, centipoints out), XsdDouble / ST_AxisUnit (as far as
     str(float) is modelled), and the refutations the faithful model yields:
     ST_Extension / ST_ContentType accept every string although their schema types carry a
-    pattern, and three float classes let a huge int escape as OverflowError. *)
+    pattern, and (since the repair of BaseFloatType.validate) Rej for the xsd:double classes. *)
 From V.lib Require Import Prelude PyFloat PyVal.
 From V.model Require Import SimpleTypeLib.
 From V.proofs Require Import PyFloat_proofs SimpleTypeLib_proofs C11_float_instance C11_regex C11_patterns.
@@ -57,10 +57,59 @@ Proof. vm_compute. reflexivity. Qed.
 Lemma py_float_ninf : py_float (PStr [45; 105; 110; 102]%N) = Ok (PFloat NInf).
 Proof. vm_compute. reflexivity. Qed.
 
-Lemma f_of_Z_finite z x : f_of_Z z = Ok x -> f_is_finite x = true.
+(** The float validator (BaseFloatType.validate, inherited by XsdDouble, ST_Angle,
+    ST_PositiveFixedAngle and called through super by ST_AxisUnit): the generated definitions
+    are all this one term, and it classifies EVERY python value. *)
+Definition fvalidate (v_value : pyval) : res pyval :=
+  (t1 <- (t2 <- (as_bool (Ok (PBool (py_isinstance v_value [C_int; C_float])))) ;; Ok (negb t2)) ;;
+   if t1 then Err TypeErr
+   else (match (py_float v_value) with
+   | Ok v_as_float => (t4 <- (t8 <- (py_ne v_as_float v_as_float) ;; if t8 then Ok true else (t5 <- (t6 <- (py_float (PStr [105; 110; 102]%N)) ;; t7 <- (py_float (PStr [45; 105; 110; 102]%N)) ;; Ok (PTuple [t6; t7])) ;; py_in v_as_float t5)) ;;
+   if t4 then Err ValueErr
+   else Ok PNone)
+   | Err t3 => if pyerr_eqb t3 OverflowErr then Err ValueErr else Err t3
+   end)).
+Lemma fv1 v : BaseFloatType__validate v = fvalidate v. Proof. reflexivity. Qed.
+Lemma fv2 v : XsdDouble__validate v = fvalidate v. Proof. reflexivity. Qed.
+Lemma fv3 v : ST_AxisUnit__validate__from_BaseFloatType v = fvalidate v. Proof. reflexivity. Qed.
+
+Lemma f_of_Z_cases z : (exists m e, f_of_Z z = Ok (Fin m e)) \/ f_of_Z z = Err OverflowErr.
 Proof.
   unfold f_of_Z. pose proof (round_dy_not_nan z 0) as Hn.
-  destruct (round_dy z 0); try discriminate; try congruence. intros [= <-]. reflexivity.
+  destruct (round_dy z 0); try congruence; eauto.
+Qed.
+
+Definition fclass (v : pyval) : res pyfloat :=
+  match v with
+  | PInt z => match f_of_Z z with Ok x => Ok x | Err _ => Err ValueErr end
+  | PBool b => Ok (Fin (if b then 1 else 0) 0)
+  | PFloat (Fin m e) => Ok (Fin m e)
+  | PFloat _ => Err ValueErr
+  | _ => Err TypeErr
+  end.
+
+Lemma fvalidate_spec v :
+  match fclass v with
+  | Ok f => fvalidate v = Ok PNone /\ py_float v = Ok (PFloat f) /\ f_is_finite f = true
+  | Err e => fvalidate v = Err e /\ (e = TypeErr \/ e = ValueErr)
+  end.
+Proof.
+  destruct v as [z|b|f|s0| |l|n]; cbn [fclass]; try (split; [reflexivity|auto]).
+  - unfold fvalidate. cbn [py_isinstance existsb isinstance1 as_bool bind py_truth negb orb py_float].
+    destruct (f_of_Z_cases z) as [(m & e & E)|E]; rewrite E; cbn [bind pyerr_eqb].
+    + unfold py_ne. cbn [py_eqb as_num cmp_num]. rewrite f_cmp_fin, Z.compare_refl.
+      split; [|split; reflexivity]. reflexivity.
+    + split; [reflexivity|auto].
+  - destruct b; vm_compute; repeat split.
+  - destruct f as [m e| | |]; try (vm_compute; split; [reflexivity|auto]).
+    unfold fvalidate. cbn [py_isinstance existsb isinstance1 as_bool bind py_truth negb orb py_float].
+    unfold py_ne. cbn [py_eqb as_num cmp_num]. rewrite f_cmp_fin, Z.compare_refl.
+    split; [|split; reflexivity]. reflexivity.
+Qed.
+
+Lemma f_of_Z_finite z x : f_of_Z z = Ok x -> f_is_finite x = true.
+Proof.
+  destruct (f_of_Z_cases z) as [(m & e & E)|E]; rewrite E; [intros [= <-]; reflexivity|discriminate].
 Qed.
 
 (** FULL STATEMENT (not provable in this model): every accepted value is written as a valid
@@ -78,20 +127,22 @@ Theorem W_XsdDouble_partial : forall v s,
   XsdDouble__to_xml v = Ok (PStr s) -> float_written v s.
 Proof.
   intros v s H.
-  unfold XsdDouble__to_xml, XsdDouble__validate, XsdDouble__convert_to_xml in H.
-  rewrite py_float_inf, py_float_ninf in H.
-  destruct v as [z|b|f|s0| |l|n]; cbn [py_isinstance existsb isinstance1 as_bool bind py_truth negb orb] in H;
-    try discriminate H.
-  - unfold py_ne in H. rewrite py_eqb_int in H. cbn [negb bind py_in existsb py_eqb as_num cmp_num f_cmp orb] in H.
-    cbn [py_float] in H. destruct (f_of_Z z) as [x|] eqn:E; cbn [bind py_str] in H; [|discriminate H].
-    injection H as <-. exists x. cbn [py_float]. rewrite E. cbn [bind]. repeat split.
-    eapply f_of_Z_finite; eassumption.
-  - destruct b; vm_compute in H; injection H as <-; eexists; (split; [reflexivity|split; reflexivity]).
-  - unfold py_ne in H. cbn [py_eqb as_num cmp_num] in H.
-    destruct f as [m e| | |]; try (vm_compute in H; discriminate H).
-    rewrite f_cmp_fin, Z.compare_refl in H.
-    cbn [negb bind py_in existsb py_eqb as_num cmp_num f_cmp orb py_float py_str] in H.
-    injection H as <-. exists (Fin m e). repeat split.
+  unfold XsdDouble__to_xml, XsdDouble__convert_to_xml in H. rewrite fv2 in H.
+  pose proof (fvalidate_spec v) as S. destruct (fclass v) as [f|e].
+  - destruct S as (S1 & S2 & S3). rewrite S1, S2 in H. cbn [bind py_str] in H.
+    injection H as <-. exists f. auto.
+  - destruct S as (S1 & _). rewrite S1 in H. discriminate H.
+Qed.
+
+(** Rej: every other value is refused with TypeError or ValueError, nothing else (an int
+    beyond the range of a double used to leave through OverflowError; repaired in /repo) *)
+Theorem Rej_XsdDouble : forall v e, XsdDouble__to_xml v = Err e -> e = TypeErr \/ e = ValueErr.
+Proof.
+  intros v e H.
+  unfold XsdDouble__to_xml, XsdDouble__convert_to_xml in H. rewrite fv2 in H.
+  pose proof (fvalidate_spec v) as S. destruct (fclass v) as [f|e'].
+  - destruct S as (S1 & S2 & S3). rewrite S1, S2 in H. discriminate H.
+  - destruct S as (S1 & S2). rewrite S1 in H. cbn [bind] in H. injection H as <-. exact S2.
 Qed.
 
 (** ST_AxisUnit (c:majorUnit/@val ...): the same, and the value is positive *)
@@ -100,25 +151,30 @@ Theorem W_AxisUnit_partial : forall v s,
   float_written v s /\ py_le v (PFloat (Fin 0 0)) = Ok false.
 Proof.
   intros v s H.
-  unfold ST_AxisUnit__to_xml, ST_AxisUnit__validate, ST_AxisUnit__validate__from_BaseFloatType,
-    ST_AxisUnit__convert_to_xml in H.
-  rewrite py_float_inf, py_float_ninf in H.
-  destruct v as [z|b|f|s0| |l|n]; cbn [py_isinstance existsb isinstance1 as_bool bind py_truth negb orb] in H;
-    try discriminate H.
-  - unfold py_ne in H. rewrite py_eqb_int in H. cbn [negb bind py_in existsb py_eqb as_num cmp_num f_cmp orb] in H.
-    destruct (py_le (PInt z) (PFloat (Fin 0 0))) as [[|]|] eqn:L; cbn [bind] in H; try discriminate H.
-    cbn [py_float] in H. destruct (f_of_Z z) as [x|] eqn:E; cbn [bind py_str] in H; [|discriminate H].
-    injection H as <-. split; [|reflexivity]. exists x. cbn [py_float]. rewrite E. cbn [bind]. repeat split.
-    eapply f_of_Z_finite; eassumption.
-  - destruct b; vm_compute in H; [|discriminate H]. injection H as <-.
-    split; [eexists; (split; [reflexivity|split; reflexivity])|reflexivity].
-  - unfold py_ne in H. cbn [py_eqb as_num cmp_num] in H.
-    destruct f as [m e| | |]; try (vm_compute in H; discriminate H).
-    rewrite f_cmp_fin, Z.compare_refl in H.
-    cbn [negb bind py_in existsb py_eqb as_num cmp_num f_cmp orb] in H.
-    destruct (py_le (PFloat (Fin m e)) (PFloat (Fin 0 0))) as [[|]|] eqn:L; cbn [bind] in H; try discriminate H.
-    cbn [py_float py_str bind] in H. injection H as <-.
-    split; [|reflexivity]. exists (Fin m e). repeat split.
+  unfold ST_AxisUnit__to_xml, ST_AxisUnit__validate, ST_AxisUnit__convert_to_xml in H. rewrite fv3 in H.
+  pose proof (fvalidate_spec v) as S. destruct (fclass v) as [f|e].
+  - destruct S as (S1 & S2 & S3). rewrite S1, S2 in H. cbn [bind] in H.
+    destruct (py_le v (PFloat (Fin 0 0))) as [[|]|] eqn:L; cbn [bind py_str] in H; try discriminate H.
+    injection H as <-. split; [exists f; auto|reflexivity].
+  - destruct S as (S1 & _). rewrite S1 in H. discriminate H.
+Qed.
+
+Lemma py_le_num_err v f e : fclass v = Ok f -> py_le v (PFloat (Fin 0 0)) = Err e -> False.
+Proof.
+  destruct v as [z|b|g|s0| |l|n]; cbn [fclass]; try discriminate; intros _; unfold py_le, py_order;
+    cbn [as_num]; discriminate.
+Qed.
+
+Theorem Rej_AxisUnit : forall v e, ST_AxisUnit__to_xml v = Err e -> e = TypeErr \/ e = ValueErr.
+Proof.
+  intros v e H.
+  unfold ST_AxisUnit__to_xml, ST_AxisUnit__validate, ST_AxisUnit__convert_to_xml in H. rewrite fv3 in H.
+  pose proof (fvalidate_spec v) as S. destruct (fclass v) as [f|e'] eqn:FC.
+  - destruct S as (S1 & S2 & S3). rewrite S1, S2 in H. cbn [bind] in H.
+    destruct (py_le v (PFloat (Fin 0 0))) as [[|]|e2] eqn:L; cbn [bind py_str] in H; try discriminate H.
+    + injection H as <-. auto.
+    + exfalso. eapply py_le_num_err; eassumption.
+  - destruct S as (S1 & S2). rewrite S1 in H. cbn [bind] in H. injection H as <-. exact S2.
 Qed.
 
 Example XsdDouble_examples :
@@ -133,28 +189,28 @@ Example XsdDouble_examples :
   /\ ST_AxisUnit__to_xml (PFloat (Fin (-1) 0)) = Err ValueErr.
 Proof. vm_compute. repeat split; eexists; reflexivity. Qed.
 
-(** ---- refuted statements ---- *)
+(** ---- formerly refuted, now positive ---- *)
 
-(** Rej (a refused value is refused with TypeError or ValueError) fails for the classes that
-    call float() on an int AFTER validating it: an int beyond the binary64 range passes
-    validate (isinstance; value != value is False; value in (inf, -inf) is False because an
-    int compares exactly) and float(value) raises OverflowError.  Observed on the library:
-    XsdDouble.to_xml(10**400), ST_AxisUnit.to_xml(10**400), ST_Angle.to_xml(10**400). *)
+(** Before the repair (fix: an int beyond the range of a double ...) the three classes that
+    call float() on an int AFTER validating it let 10**400 escape as OverflowError
+    (Rej_*_refuted, witness huge_int).  The regenerated validate now converts first, and the
+    witness is refused with ValueError. *)
 Definition huge_int : pyval := PInt (10 ^ 400).
 
-Theorem Rej_XsdDouble_refuted : exists v, XsdDouble__to_xml v = Err OverflowErr.
-Proof. exists huge_int. vm_compute. reflexivity. Qed.
-Theorem Rej_AxisUnit_refuted : exists v, ST_AxisUnit__to_xml v = Err OverflowErr.
-Proof. exists huge_int. vm_compute. reflexivity. Qed.
-Theorem Rej_Angle_refuted : exists v, ST_Angle__to_xml v = Err OverflowErr.
-Proof. exists huge_int. vm_compute. reflexivity. Qed.
+Example huge_int_now_refused :
+  XsdDouble__to_xml huge_int = Err ValueErr
+  /\ ST_AxisUnit__to_xml huge_int = Err ValueErr
+  /\ ST_Angle__to_xml huge_int = Err ValueErr
+  /\ XsdDouble__to_xml (PInt (- 10 ^ 400)) = Err ValueErr.
+Proof. vm_compute. repeat split. Qed.
 
-(** the same int is handled by the classes that range-check first (exact int/float
-    comparison) and by ST_PositiveFixedAngle (int % int stays an int) *)
+(** the same int is refused by the classes that range-check first (exact int/float
+    comparison) and, since the repair, by ST_PositiveFixedAngle too (it used to write 16800000:
+    int % int stays an int) *)
 Example huge_int_elsewhere :
   ST_Percentage__to_xml huge_int = Err ValueErr
   /\ ST_TextFontScalePercentOrPercentString__to_xml huge_int = Err ValueErr
-  /\ ST_PositiveFixedAngle__to_xml huge_int = Ok (PStr [49; 54; 56; 48; 48; 48; 48; 48]%N).
+  /\ ST_PositiveFixedAngle__to_xml huge_int = Err ValueErr.
 Proof. vm_compute. repeat split. Qed.
 
 (** W fails for the two OPC string types: the classes accept EVERY str, the schema types
